@@ -111,6 +111,7 @@ def run_cases(chk, cases, worker, procs=None):
 def sub_check(prop, tier):
     """a fresh Check used inside a worker process (stdout lines are still printed there)"""
     c = common.Check(prop, tier)
+    c.quiet_known = True       # the parent prints each known finding once when merging
     return c
 
 
@@ -134,6 +135,8 @@ def merge(chk, d):
     for k in d['known_hits']:
         if k['id'] not in [x['id'] for x in chk.known_hits]:
             chk.known_hits.append(k)
+            print('KNOWN-FINDING: property=%s %s' % (chk.prop, k['what']))
+            sys.stdout.flush()
     chk.inconclusive.extend(d['inconclusive'])
     chk.harness_errors.extend(d['harness_errors'])
     chk.paths += d['paths']
